@@ -341,6 +341,28 @@ def handleCase (input : Sexp) : Option (Sexp × Sexp) := do
   pure (.list (.atom "outs" :: outs.map (Out.toSexp nTypes)),
         .list (.atom "outs" :: outsSpec.map (Out.toSexp nTypes)))
 
+mutual
+  /-- No `holding` inside (C01 histories: registry operations and `with_inner_state` scopes). -/
+  def Stmt.holdFree : Stmt → Prop
+    | .op _ => True
+    | .hold _ _ _ _ => False
+    | .inner _ body => Prog.holdFree body
+  def Prog.holdFree : Prog → Prop
+    | .nil => True
+    | .cons s rest => Stmt.holdFree s ∧ Prog.holdFree rest
+end
+
+/-- C01 histories: input `(ops stmt*)`, `stmt := rop | (inner ok|err stmt*)`; output `(outs out*)`.
+Returns (model, spec). -/
+def handleHistory (input : Sexp) : Option (Sexp × Sexp) := do
+  let opsS ← tagged? "ops" input
+  let ss ← opsS.mapM (Stmt.parseF 64)
+  let prog := ss.foldr Prog.cons Prog.nil
+  let (_, outs) := execProg new prog
+  let (_, outsSpec) := specExecProg [PMap.empty] prog
+  pure (.list (.atom "outs" :: outs.map (Out.toSexp nTypes)),
+        .list (.atom "outs" :: outsSpec.map (Out.toSexp nTypes)))
+
 /-- Step O as an executable predicate on a history: the code-shaped machine answers what the abstract
 machine (many readers xor one writer; `holding` restores into the scope it took from) answers. -/
 def holdsOn (ops : List MOp) : Bool :=
